@@ -68,6 +68,18 @@ check("C09", "other",
       "observer products and abstract interpretation over per-rule DFAs of the decoded ATN; SSA dominator + access-path analysis of listener callbacks",
       "DESIGN.md section 3 (E8 R8.4, E5), section 4 (C09)")
 
+check("C15", "other",
+      "Decided by dominance and def-use on TransformModFile: every accepted value is V = ReplaceAll(QueryUnescape(node.Value), backslash, slash) (decode first, normalisation outermost); the accept site is dominated by decode-error==nil, string tag, !Contains(V,'../'), !HasPrefix(V,'/'), HasSuffix(V,'.fga') with operand identity on V; positions are 0 or Line-1/Column-1 of the one node whose value is reported; schema stored only under Value=='1.2'; the manifest text reaches the YAML decoder unmodified; every structured path through the contents loop yields exactly one error or one accept; success only with an empty accumulator. A fixed string lemma turns the guards into the stated safety of every returned path.",
+      "Trusted: yaml.v3 position semantics (one-based, first character of the value); url.QueryUnescape / strings.* as documented. Which YAML documents the decoder accepts is not decided.",
+      "SSA dominator + def-use analysis with operand identity; structured path enumeration of the loop body; constant/shape analysis of position expressions",
+      "DESIGN.md section 3 (E6), section 4 (C15)")
+
+check("C16", "other",
+      "Structural necessary conditions decided statically: the ParseDSL pre-pass keeps line structure and prefixes (split on newline, one cleaned line per input line, only prefix-preserving operations, comment cut at the first ' #', join + trailing-newline trim only); SyntaxError stores line-1 and the column unconditionally and records on every path; listener-raised errors pass the start token of a name rule of the grammar; merge errors pair file, lines and the finder matching the conflict kind on the same symbol; line finders reject continuation by every name character of the lexer grammar (abstract evaluation over all bytes) and must be scoped.",
+      "Trusted: ANTLR token positions refer to the stream it was given. One known finding (relation finder not scoped to its type) is listed in known-findings.json.",
+      "typed-AST shape analysis of the pre-pass; SSA access-path analysis of error literals; abstract evaluation of the delimiter helper over the lexer grammar's name characters; grammar-derived name rules",
+      "DESIGN.md section 3 (E9), section 4 (C16)")
+
 _PENDING = "static check not built yet in this round; see DESIGN.md section 4 for the planned clauses"
 for _p in ["C01","C02","C03","C05","C06","C07","C08","C09","C10","C11","C12","C13","C14","C15","C16","C17","C18"]:
     if _p not in CHECKS:
